@@ -356,6 +356,9 @@ Proof.
     end.
 Qed.
 
+Lemma InvA_LSubCloseRet s h s' : InvC s -> InvA' s -> step s (LSubCloseRet h) = Some s' -> InvA' s'.
+Proof. intros IC I H. invA_auto s IC I H. Qed.
+
 Lemma InvA'_init n hon f5 f6 f12 : InvA' (init n hon f5 f6 f12).
 Proof.
   constructor; [apply InvA_init|]. simpl. intros h m. destruct (Nat.ltb h n); discriminate.
@@ -370,6 +373,7 @@ Proof.
   - eapply InvA_LChanClose; eassumption.
   - eapply InvA_LFinish; eassumption.
   - eapply InvA_LTimeout; eassumption.
+  - eapply InvA_LSubCloseRet; eassumption.
   - eapply InvA_LClose; eassumption.
   - eapply InvA_LWaitDone; eassumption.
   - eapply InvA_LW1; eassumption.
